@@ -29,6 +29,11 @@ def stopping_plan(prop, ctx, with_t3=False, with_x=True):
     P.append(sweep.universe_shards(prop, "U-S5r", j, rewards="pat3", stopping_only=True, stride=50021 if ctx.thorough else 1000003, seed=ctx.seed))
     P.append(sweep.universe_shards(prop, "U-S6r", j, rewards="pat3", stopping_only=True, stride=20000003 if ctx.thorough else 400000009, seed=ctx.seed))
     P.append(sweep.family_shards(prop, "U-D", j))
+    P.append(sweep.family_shards(prop, "U-WIDE", j))
+    P.append(sweep.family_shards(prop, "U-BIG", j))
+    P.append(sweep.family_shards(prop, "U-MF", j))
+    if not ctx.thorough:
+        P.append(sweep.family_shards(prop, "U-F", j, max_deg=4, focus_reward=1, stride=7, offset=ctx.seed))
     if with_t3:
         P.append(sweep.family_shards(prop, "U-M2", 1000))        # C06 only
     P.append(sweep.family_shards(prop, "U-E", j))
@@ -64,6 +69,8 @@ def debug_log_parts(prop, ctx):
     return [sweep.pair_shards(prop, j, stride=1 if ctx.thorough else 2, offset=ctx.seed),
             sweep.family_shards(prop, "U-F", j, max_deg=3 if ctx.thorough else 2, focus_reward=1, debug_log=True),
             sweep.universe_shards(prop, "U-S2d2", j, rewards="ones", stopping_only=False, frac=None if ctx.thorough else 8, seed=ctx.seed, debug_log=True),
+            sweep.universe_shards(prop, "U-S2d2", j, rewards="ones", stopping_only=False, frac=None if ctx.thorough else 2, seed=ctx.seed + 1, alias_rows=True),
+            sweep.family_shards(prop, "U-PAIR", j, alias_rows=True),
             sweep.family_shards(prop, "U-E", j, debug_log=True, stride=1 if ctx.thorough else 4, offset=ctx.seed),
             sweep.family_shards(prop, "U-X", j, debug_log=True)]
 
@@ -90,6 +97,9 @@ def all_games_plan(prop, ctx, thresholds=False):
     P.append(sweep.universe_shards(prop, "U-S5r", j, stride=50021 if ctx.thorough else 1000003, seed=ctx.seed))
     P.append(sweep.universe_shards(prop, "U-S6r", j, stride=20000003 if ctx.thorough else 400000009, seed=ctx.seed))
     P.append(sweep.family_shards(prop, "U-D", j))
+    P.append(sweep.family_shards(prop, "U-WIDE", j))
+    P.append(sweep.family_shards(prop, "U-BIG", j))
+    P.append(sweep.family_shards(prop, "U-MF", j))
     P.append(sweep.family_shards(prop, "U-E", j))
     P.append(sweep.family_shards(prop, "U-K", j))
     P.append(sweep.family_shards(prop, "U-RB", j))
